@@ -212,6 +212,17 @@ func c19units(tier string) []mc.Unit {
 			}})
 		}
 	}
+	sl := func(seq string, o, na, mg float64) hcall {
+		return hcall{fmt.Sprintf("SantaLucia(%s,%g,%g,%g)", seq, o, na, mg), func() any {
+			a, b, c := primers.SantaLucia(seq, o, na, mg)
+			return fmt.Sprint(a, b, c)
+		}, showSprint}
+	}
+	us = append(us, historyUnit("api-histories", []hcall{
+		sl("ACGATGGCAGTAGCATGC", 500e-9, 50e-3, 0), sl("acgt", 1e-6, 1, 10e-3), sl("GAATTC", 100e-9, 350e-3, 1.5e-3), sl("AT", 1e-3, 1e-3, 100e-3),
+		{"MeltingTemp(GTAAAACGACGGCCAGT)", func() any { return primers.MeltingTemp("GTAAAACGACGGCCAGT") }, showSprint},
+		{"MarmurDoty(ACGTCCGGACTT)", func() any { return primers.MarmurDoty("ACGTCCGGACTT") }, showSprint},
+	}, 3))
 	// case masks
 	us = append(us, mc.Unit{Name: "case", Weight: 200, Run: func(r *mc.Recorder) {
 		var cnt, nt, seqs int64
